@@ -26,6 +26,15 @@ CHECKS = {
         note="walk_outcomes assumes the walk draws randomness only via numpy.random.permutation; if that changes the sub-check labels "
              "itself unavailable (no verdict) and the seed-sampled sub-checks remain. Exceptions from dinucleotide_shuffle are permitted "
              "rejections per the statement and are counted."),
+    "C09": dict(
+        technique="property-based testing (Hypothesis): differential against explicit per-mutant forward passes of an exact-integer model",
+        category="exploration", design_ref="DESIGN.md §3 C09",
+        text="For generated alphabets (2-5), lengths (1-30), windows incl. the default end, batch sizes 1..A*W+1, tensor/tuple/list "
+             "outputs with 1-2 trailing output axes, per-example extra args and int/slice/None targets, raw y0/y_hat are compared "
+             "exactly with one-example-at-a-time forward passes on explicitly constructed mutants, and the attribution output with the "
+             "documented aggregation recomputed from those values.",
+        note="Models are exact (float64 integers + ReLU), so comparison of raw outputs is exact; attributions use atol 1e-6. Attribution "
+             "mode only for single-tensor models; negative end other than the default is not generated."),
     "C10": dict(
         technique="property-based testing (Hypothesis) against a Python string-edit model of substitutions/deletions/insertions + exhaustive small-scope enumeration",
         category="exploration", design_ref="DESIGN.md §3 C10",
